@@ -329,7 +329,7 @@ def add_reversals(rng, cast, top=None, bottom=None):
         k = rng.randint(1, min(6, n - 2))          # lowered to sample k
         j = rng.randint(0, k - 1)                  # raised back to sample j
         idx += list(range(0, k + 1)) + list(range(k - 1, j - 1, -1))
-        shift += [0.0] * (k + 1) + [rng.choice([0.0, rng.uniform(-0.3, 0.3)]) * abs(data[1, 0] - data[0, 0]) for _ in range(k - j)]
+        shift += [0.0] * (k + 1) + [rng.choice([0.0, rng.uniform(0.0, 0.3)]) * abs(data[1, 0] - data[0, 0]) for _ in range(k - j)]
         start_down = j + 1 if rng.random() < 0.7 else j
         desc['top_yoyo'] = {'down_to': k, 'back_to': j}
     else:
@@ -342,7 +342,8 @@ def add_reversals(rng, cast, top=None, bottom=None):
         if rng.random() < 0.2:
             up = [n - 1] + up                       # a repeated deepest sample (equal depth: not a reversal for `<`)
         idx += up
-        shift += [rng.choice([0.0, -rng.uniform(0.0, 0.4)]) * abs(data[-1, 0] - data[-2, 0]) for _ in up]
+        # the up-cast samples sit a little above the depths of the down-cast samples
+        shift += [rng.choice([0.0, -rng.uniform(0.0, 0.4)]) * abs(data[i, 0] - data[max(i - 1, 0), 0]) for i in up]
         desc['upcast'] = {'samples': len(up)}
     raw = np.array([data[i] for i in idx], dtype=float)
     raw[:, 0] = raw[:, 0] + np.array(shift)
